@@ -1154,3 +1154,60 @@ mod stun_client_tests {
         assert_eq!(client.transactions.len(), 0);
     }
 }
+
+/// Read-only snapshot of the client state (verification hook)
+#[cfg(feature = "verif-hooks")]
+#[derive(Debug, Clone, PartialEq)]
+pub struct VerifSnapshot {
+    /// Outstanding transactions: id, whether the send instant is still recorded, debug of the RTO manager
+    pub outstanding: Vec<(TransactionId, bool, String)>,
+    /// Pending timeout entries: id, armed at, duration
+    pub timeouts: Vec<(TransactionId, Instant, Duration)>,
+    /// Current RTO estimate (unreliable transport only)
+    pub rto: Option<Duration>,
+    /// Debug of the RTT estimator (unreliable) or the timeout (reliable)
+    pub rtt_debug: String,
+    /// Instant of the last request (unreliable transport only)
+    pub last_request: Option<Instant>,
+    /// Credential mechanism state tag
+    pub mechanism: String,
+    /// Transactions marked as having failed authentication
+    pub violated: Vec<TransactionId>,
+}
+
+#[cfg(feature = "verif-hooks")]
+impl StunClient {
+    /// Returns a read-only snapshot of the client state (verification hook)
+    pub fn verif_snapshot(&self) -> VerifSnapshot {
+        let mut outstanding: Vec<(TransactionId, bool, String)> = self
+            .transactions
+            .iter()
+            .map(|(id, t)| (*id, t.instant.is_some(), format!("{:?}", t.rtos)))
+            .collect();
+        outstanding.sort();
+        let mut timeouts = self.timeouts.verif_entries();
+        timeouts.sort();
+        let (rto, rtt_debug, last_request) = match &self.rtt {
+            StunRttCalcuator::Reliable(t) => (None, format!("reliable {:?}", t), None),
+            StunRttCalcuator::Unreliable(h) => (
+                Some(h.rtt.rto()),
+                format!("{:?} rm={} rc={}", h.rtt, h.rm, h.rc),
+                h.last_request,
+            ),
+        };
+        let (mechanism, violated) = match &self.mechanism {
+            None => (String::from("none"), Vec::new()),
+            Some(CredentialMechanismClient::ShortTerm(m)) => m.verif_state(),
+            Some(CredentialMechanismClient::LongTerm(m)) => m.verif_state(),
+        };
+        VerifSnapshot {
+            outstanding,
+            timeouts,
+            rto,
+            rtt_debug,
+            last_request,
+            mechanism,
+            violated,
+        }
+    }
+}
